@@ -169,7 +169,7 @@ func c11Run(k *fw.K, ci int, faults map[int]string, viaMobile bool, label string
 			mp, err = mobile.NewPasswordMrz(p.Zone)
 		}
 		if err != nil {
-			fw.Bug("mobile password: %v", err)
+			fw.LibFail("mobile-password-rejected", "mobile password constructor rejects valid input: %v", err)
 		}
 		doc, rerr := mr.ReadDocument(mp, []byte{0x3B}, nil)
 		err = rerr
